@@ -17,6 +17,9 @@
 #include <osmium/io/detail/opl_parser_functions.hpp>
 #include <osmium/io/detail/output_format.hpp>
 #include <osmium/osm/location.hpp>
+#include <osmium/builder/osm_object_builder.hpp>
+#include <osmium/memory/buffer.hpp>
+#include <osmium/osm/node.hpp>
 #include <osmium/osm/timestamp.hpp>
 #include <osmium/osm/types_from_string.hpp>
 
@@ -357,19 +360,22 @@ void case_ts_rt(uint64_t block, vh::Rng& rng) {
 struct TsFields { int Y, M, D, h, m, s; };
 
 // returns: 1 must accept (value in *out), 0 must reject, -1 not judged
-int ref_ts(const std::string& str, uint32_t* out) {
+int ref_ts(const std::string& str, uint32_t* out, size_t* consumed = nullptr) {
     // format yyyy-mm-ddThh:mm:ss followed by Z or [.,]d+Z
     auto dg = [&](size_t i) { return i < str.size() && isd(str[i]); };
     static const int pos[] = {0, 1, 2, 3, 5, 6, 8, 9, 11, 12, 14, 15, 17, 18};
     for (int p : pos) if (!dg(static_cast<size_t>(p))) return 0;
     if (str.size() < 20 || str[4] != '-' || str[7] != '-' || str[10] != 'T' || str[13] != ':' || str[16] != ':') return 0;
+    size_t used = 20;
     if (str[19] != 'Z') {
         if (str[19] != '.' && str[19] != ',') return 0;
         size_t i = 20;
         if (!dg(i)) return 0;
         while (dg(i)) ++i;
         if (i >= str.size() || str[i] != 'Z') return 0;
+        used = i + 1;
     }
+    if (consumed) *consumed = used;
     auto two = [&](size_t i) { return (str[i] - '0') * 10 + (str[i + 1] - '0'); };
     TsFields f{(str[0] - '0') * 1000 + (str[1] - '0') * 100 + two(2), two(5), two(8), two(11), two(14), two(17)};
     static const int ml[12] = {31, 29, 31, 30, 31, 30, 31, 31, 30, 31, 30, 31};
@@ -397,7 +403,29 @@ void judge_ts(const std::string& s) {
     }
     if (foreign) vh::violation("timestamp parser throws an undocumented exception type", s + " : " + what);
     uint32_t ref = 0;
-    const int j = ref_ts(s, &ref);
+    size_t used = 0;
+    const int j = ref_ts(s, &ref, &used);
+    // the strict entry point (XML attribute, set_attribute): the same grammar, but the string has
+    // to be consumed completely
+    {
+        static osmium::memory::Buffer nb{256, osmium::memory::Buffer::auto_grow::no};
+        static osmium::Node* node = [] { { osmium::builder::NodeBuilder b{nb}; b.set_user("u"); } nb.commit(); return &nb.get<osmium::Node>(0); }();
+        bool sok = false, sforeign = false;
+        std::string swhat;
+        node->set_timestamp(osmium::Timestamp{uint32_t{12345}});
+        try { node->set_timestamp(e.p); sok = true; }
+        catch (const std::invalid_argument& ex) { swhat = ex.what(); }
+        catch (const std::exception& ex) { swhat = ex.what(); sforeign = true; }
+        if (sforeign) vh::violation("OSMObject::set_timestamp(const char*) throws an undocumented exception type", s + " : " + swhat);
+        if (j == 1 && used == s.size()) {
+            vh::count("ts_strict_must_accept");
+            if (!sok) vh::violation("valid timestamp string rejected by OSMObject::set_timestamp(const char*)", s + " : " + swhat);
+            else if (uint32_t(node->timestamp()) != ref) vh::violation("OSMObject::set_timestamp(const char*) stores a wrong value", vh::fmt("%s -> %u expected %u", s.c_str(), uint32_t(node->timestamp()), ref));
+        } else if (j == 0 || (j == 1 && used < s.size())) {
+            vh::count("ts_strict_must_reject");
+            if (sok) vh::violation("OSMObject::set_timestamp(const char*) accepts a malformed or not fully consumed string", vh::fmt("%s -> %u", s.c_str(), uint32_t(node->timestamp())));
+        }
+    }
     if (j == 1) {
         vh::count("ts_must_accept");
         if (!ok) vh::violation("valid timestamp string rejected", s + " : " + what);
